@@ -229,12 +229,18 @@ def gen(tier, seed, chunk, nch):
         argv, forms = _render(rng, d, asg)
         if scale:
             forms.append("scale")
-        cases.append({"decl": d, "asg": asg, "argv": argv, "forms": forms})
+        case = {"decl": d, "asg": asg, "argv": argv, "forms": forms}
+        if not scale and rng.random() < 0.3:
+            # the same parser object has parsed before: nothing, or another assignment of the same declaration
+            other, _ = _render(rng, d, _assignment(rng, d, typed=False))
+            case["earlier"] = [rng.choice([[], other, other + [b"--nope-undeclared"]])]
+        cases.append(case)
     return cases
 
 
 def script(cid, case):
-    actions = [("parse", "A", case["argv"])]
+    actions = [("parse", "A", v) for v in case.get("earlier") or []]
+    actions.append(("parse", "A", case["argv"]))
     for kind, name, idx, ty, txt in case["asg"].get("typed", []):
         actions.append(("as", kind, name, idx, ty))
     text, _ = optrun.case_script(cid, case["decl"], {}, actions)
@@ -251,7 +257,9 @@ def _worst(asg):
 
 
 def evaluate(case, lines, S):
-    line = next((l for l in lines if l.startswith("P ")), None)
+    line = optoracle.judged_line(lines)
+    if case.get("earlier"):
+        S.counters["judged-parse-on-a-parser-with-a-history"] += 1
     if line is None:
         S.inconc.append("no parse line")
         return
